@@ -285,6 +285,7 @@ struct CountingReader {
 
 // ---- building a document from a canonical dump (inverse of dump()) through the public API ----
 struct DumpParser {
+  int nanVariant = 0;       // which NaN bit pattern "Fnan"/"Dnan" stand for (0 = the canonical quiet NaN)
   const std::string& d;
   size_t i = 0;
   explicit DumpParser(const std::string& s) : d(s) {}
@@ -350,11 +351,13 @@ struct DumpParser {
       return true;
     }
     if (t[0] == 'F') {
-      uint32_t b = t == "Fnan" ? 0x7fc00000u : (uint32_t)std::stoul(t.substr(1), nullptr, 16);
+      static const uint32_t fnans[4] = {0x7fc00000u, 0xffc00000u, 0x7fc00001u, 0xffe00000u};   // a NaN is a NaN whatever its sign and payload
+      uint32_t b = t == "Fnan" ? fnans[nanVariant & 3] : (uint32_t)std::stoul(t.substr(1), nullptr, 16);
       float f; memcpy(&f, &b, 4); v.set(f); return true;
     }
     if (t[0] == 'D') {
-      uint64_t b = t == "Dnan" ? 0x7ff8000000000000ull : (uint64_t)std::stoull(t.substr(1), nullptr, 16);
+      static const uint64_t dnans[4] = {0x7ff8000000000000ull, 0xfff8000000000000ull, 0x7ff8000000000001ull, 0xfffc000000000000ull};
+      uint64_t b = t == "Dnan" ? dnans[nanVariant & 3] : (uint64_t)std::stoull(t.substr(1), nullptr, 16);
       double f; memcpy(&f, &b, 8); v.set(f); return true;
     }
     if (t[0] == 's') {
